@@ -117,6 +117,9 @@ derived_bundle!(DB2 { x: C0, y: C4, z: C3 });
 derived_bundle!(DB3 { z: C6, y: C5, x: C7, w: C1 });
 derived_bundle!(DB4 { only: C3 });
 derived_bundle!(DB5 { first: C1, second: C1 });
+// three fields of equal alignment in both declaration orders: only the TypeId tie-break orders them
+derived_bundle!(DB6 { p: C2, q: C3, r: C7 });
+derived_bundle!(DB7 { r: C7, q: C3, p: C2 });
 
 /// field types of the derived bundle struct of a kind
 pub fn derived_types(kind: u64) -> Option<&'static [u64]> {
@@ -127,6 +130,8 @@ pub fn derived_types(kind: u64) -> Option<&'static [u64]> {
         13 => &[6, 5, 7, 1],
         14 => &[3],
         15 => &[1, 1],
+        16 => &[2, 3, 7],
+        17 => &[7, 3, 2],
         _ => return None,
     })
 }
@@ -145,6 +150,8 @@ pub fn dispatch_bundle<V: crate::comps::TupleVisitor>(kind: u64, types: &[u64], 
         12 => v.visit::<DB2>(),
         13 => v.visit::<DB3>(),
         14 => v.visit::<DB4>(),
+        16 => v.visit::<DB6>(),
+        17 => v.visit::<DB7>(),
         _ => v.visit::<DB5>(),
     })
 }
